@@ -1,7 +1,9 @@
 """C15 — loop-level theorems + correspondence of Solver.solve with a scripted step oracle."""
 from ..gen import Gen
 from ..unit import run_unit
+from .. import camp_props
 from ..units.loop import Loop
+from ..units.stepctl import StepCtl
 
 PROP_FILES = ["props/C15.v"]
 TECHNIQUE = "Coq proof (invariants by induction over arbitrary step-oracle traces) + exact differential correspondence of Solver.solve with a scripted step oracle and virtual clock"
@@ -9,5 +11,6 @@ TECHNIQUE = "Coq proof (invariants by induction over arbitrary step-oracle trace
 
 def run(rep, tier, seed, scratch):
     g = Gen(seed)
-    u = Loop()
-    run_unit(rep, u, u.gen(g, tier), scratch)
+    for u in (StepCtl(), Loop()):
+        run_unit(rep, u, u.gen(g, tier), scratch)
+    camp_props.run_single(rep, 'C15', tier, seed, 30, 250, allow={'step_control_type': ['Exact', 'Exact', 'DistanceRatio', 'ResiduumRatio', 'Fixed'], 'iteration_limit': 60})
